@@ -1,7 +1,7 @@
 import Juniper.Generated.Par
 import Juniper.Generated.ParDoFacts
 /-!
-# Model of `parallel.Do` / `DoContext` (and the `Map` / `MapContext` wrappers) — C13
+# Model of `parallel.Do` / `DoContext` — C13 (the wrappers `Map` / `MapContext`: `Model/ParWrap.lean`)
 
 A labelled transition system: one label = one atomic step of one goroutine (the atomic add on the
 shared counter together with the bound test, the `ctx.Err()` test, the call of `f`, the return of
@@ -97,16 +97,6 @@ def dcCode : Code where
     && Par.dcWorkerReturnsNilWhenDone && Par.dcWorkerReturnsCtxErr && Par.dcWorkerCalls
     && Par.dcWorkerReturnsErr && Par.dcFetchBeforeCheck && Par.dcCheckBeforeCall
     && Par.dcSpawnsViaErrgroup && Par.dcReturnsWait
-
-/-- The wrappers `Map` / `MapContext`: positional write, length and parallelism passed through. -/
-def mapStructural : Bool :=
-  Par.mapAllocates && Par.mapWritesPositionally && Par.mapReturnsOut
-    && decide (∀ l ∈ [(0 : Int), 1, 7], Par.mapN l = l ∧ Par.mapParallelism l = l)
-
-def mapContextStructural : Bool :=
-  Par.mcAllocates && Par.mcWritesPositionally && Par.mcCallbackReturnsErr && Par.mcReturnsErr
-    && Par.mcReturnsOut && Par.mcFailed true && !Par.mcFailed false
-    && decide (∀ l ∈ [(0 : Int), 1, 7], Par.mcN l = l ∧ Par.mcParallelism l = l)
 
 /-- What the proofs need to know about the anchored expressions. Discharged for `doCode` and
 `dcCode` from the regenerated definitions (`Proofs/ParDo*.lean`): an operator flipped in the source
@@ -230,8 +220,6 @@ structure St where
   egErr : Option Err
   /-- the call has returned with this result -/
   ret : Option (Option Err)
-  /-- `out` of Map/MapContext -/
-  out : List (Option Nat)
   /-- ghost: calls of `f` in the order they began -/
   begun : List Begun
   /-- ghost: returns of `f` in order -/
@@ -245,11 +233,11 @@ def init (cfg : Cfg) : St :=
     { seq := true, x := cfg.code.seqInit,
       ws := [if cfg.code.seqLoop cfg.code.seqInit (effN cfg) then .call cfg.code.seqInit.toNat else .done],
       callerCancelled := false, dCause := none, egErr := none, ret := none,
-      out := List.replicate cfg.n none, begun := [], ended := [], skipped := [] }
+      begun := [], ended := [], skipped := [] }
   else
     { seq := false, x := cfg.code.counterInit, ws := List.replicate (numWorkers cfg) .fetch,
       callerCancelled := false, dCause := none, egErr := none, ret := none,
-      out := List.replicate cfg.n none, begun := [], ended := [], skipped := [] }
+      begun := [], ended := [], skipped := [] }
 
 inductive Label where
   | fetch (w : Nat)
@@ -271,11 +259,6 @@ def Label.isEnv : Label → Bool
 /-- is the context handed to `f` cancelled right now -/
 def ctxCancelled (s : St) : Bool :=
   if s.seq then s.callerCancelled else s.dCause.isSome
-
-/-- the wrapper's `out[i] = f(in[i])` (Map) / `out[i], err = f(ctx, in[i])` (MapContext) -/
-def writeOut (out : List (Option Nat)) (i : Nat) : Res → List (Option Nat)
-  | .ok v => out.set i (some v)
-  | .err _ => out
 
 def allDone (ws : List Pc) : Bool := ws.all (fun pc => match pc with | .done => true | _ => false)
 
@@ -310,27 +293,26 @@ def step (cfg : Cfg) (s : St) : Label → Option St
     | some (.inF i) =>
       if r.isErr && !cfg.code.ctxMode then none else
       let ended := s.ended ++ [(i, r)]
-      let out := writeOut s.out i r
       if s.seq then
         match r with
         | .err k =>
           if cfg.code.seqStops true then
-            some { s with ws := s.ws.set w (.retErr (.f k)), ended := ended, out := out }
+            some { s with ws := s.ws.set w (.retErr (.f k)), ended := ended }
           else
             let xn := cfg.code.seqPost s.x
-            some { s with x := xn, ended := ended, out := out,
+            some { s with x := xn, ended := ended,
                           ws := s.ws.set w (if cfg.code.seqLoop xn (effN cfg) then .call xn.toNat else .done) }
         | .ok _ =>
           let xn := cfg.code.seqPost s.x
-          some { s with x := xn, ended := ended, out := out,
+          some { s with x := xn, ended := ended,
                         ws := s.ws.set w (if cfg.code.seqLoop xn (effN cfg) then .call xn.toNat else .done) }
       else
         match r with
         | .err k =>
           if cfg.code.workerFailed true then
-            some { s with ws := s.ws.set w (.retErr (.f k)), ended := ended, out := out }
-          else some { s with ws := s.ws.set w .fetch, ended := ended, out := out }
-        | .ok _ => some { s with ws := s.ws.set w .fetch, ended := ended, out := out }
+            some { s with ws := s.ws.set w (.retErr (.f k)), ended := ended }
+          else some { s with ws := s.ws.set w .fetch, ended := ended }
+        | .ok _ => some { s with ws := s.ws.set w .fetch, ended := ended }
     | _ => none
   | .egDone w =>
     match s.ws[w]? with
